@@ -92,6 +92,12 @@ def strata(tier):
             if n % 3 == 0:
                 yield {"path": PC.mkpath([{"p": "mol"}, p, {"p": "mol"}]), "via": via, "probes": probes}
             n += 1
+    for part in ({"p": "list", "index": PC.L("index", "in_range", 0, 3)}, {"p": "list", "value": PC.L("value", "equal_to", 1)},
+                 {"p": "map", "value": PC.L("value", "in_", [0, 2])}, {"p": "mol", "value": PC.L("value", "not_equal_to", 1.0)},
+                 {"p": "list", "index": PC.L("index", "less_than", 2), "value": PC.L("value", "is_instance", {"$type": "list"})}):
+        for via in ("api", "spec"):
+            yield {"path": PC.mkpath([part, twin_args(part)]), "via": via, "probes": probes + [[[1, 0], [True, 2.0]], {"a": {"b": 1, "c": 1.0}}]}
+            yield {"path": PC.mkpath([twin_args(part), {"p": "mol"}, part]), "via": via, "probes": probes}
     for toks in (["0"], ["a", "0"], ["1", "0"], ["2.5"], ["a", "b", "1"], ["b", "2", "0"], ["l", "3"], ["3"], ["07"], ["1e0"], ["-1"], []):
         yield {"tokens": toks, "via": "str", "probes": probes}
     for j in range(60 if tier == "quick" else 300):
@@ -111,7 +117,35 @@ def gen(rng, tier):
         for part in p["parts"]:
             if part["p"] != "prim" and rng.random() < 0.5:
                 part["label"] = rng.choice(["a", "Label 1", ""])
+    if rng.random() < 0.15:
+        # (round 13) a LATER part that is the typed twin of an earlier one (0 / 0.0 / False in its arguments): the two specs
+        # compare == in Python, the parts do not mean the same
+        cands = [i for i, part in enumerate(p["parts"]) if part["p"] != "prim" and repr(twin_args(part)) != repr(part)]
+        if cands:
+            i = rng.choice(cands)
+            p["parts"].insert(rng.randint(i + 1, len(p["parts"])), twin_args(p["parts"][i]))
     return {"path": p, "via": rng.choice(["api", "spec"]), "probes": [doc, DISTINGUISH if type(doc) is dict else DISTINGUISH_LIST]}
+
+
+def twin_args(t, inside=False):
+    """the term with every 0 / 1 / whole number inside condition arguments replaced by its typed twin"""
+    if type(t) is dict:
+        if "$type" in t:
+            return t
+        return {k: twin_args(v, inside or k in ("args", "kwargs")) for k, v in t.items()}
+    if type(t) is list:
+        return [twin_args(v, inside) for v in t]
+    if not inside:
+        return t
+    if type(t) is bool:
+        return int(t)
+    if type(t) is int and t in (0, 1):
+        return bool(t)
+    if type(t) is int and abs(t) < 2 ** 53:
+        return float(t)
+    if type(t) is float and t == t and abs(t) < 2 ** 53 and t == int(t):
+        return int(t)
+    return t
 
 
 def required(m, tier):
